@@ -675,7 +675,7 @@ func (c *Checked) checkCallbacks(i int, op Op, res *OpResult, evs []Event) {
 			if f.DurNs > 0 {
 				c.probe("callback_runtime_checked")
 			}
-			if want := catalogName(f); want != "" && cb.Name != want {
+			if want := catalogName(f); want != "" && !nameIdentifies(cb.Name, want) {
 				c.viol(i, "callback-name", fmt.Sprintf("f%d callback Name %q, want %q", e.Fn, cb.Name, want), "C20")
 			}
 		case EvCallback:
@@ -684,6 +684,14 @@ func (c *Checked) checkCallbacks(i int, op Op, res *OpResult, evs []Event) {
 			}
 		}
 	}
+}
+
+// nameIdentifies: the callback Name names the declared function: "<package
+// path>.<Function>" in some spelling of the package; only the function part
+// is compared exactly.
+func nameIdentifies(got, want string) bool {
+	fn := want[strings.LastIndex(want, ".")+1:]
+	return got == want || strings.HasSuffix(got, "."+fn)
 }
 
 // catalogName is the expected callback Name of a catalogue function ("" for
@@ -1218,16 +1226,33 @@ var (
 	catIDRev = map[int]int{}
 )
 
+// eqStr compares two lists of Input / Output descriptions entry by entry. An
+// entry is "<type>" or "<type>[attr, attr...]": the type and the *set* of
+// attributes are compared, so that a different spelling order of the
+// attributes (which no statement fixes) is not an alarm.
 func eqStr(a, b []string) bool {
 	if len(a) != len(b) {
 		return false
 	}
 	for i := range a {
-		if a[i] != b[i] {
+		if a[i] != b[i] && normEntry(a[i]) != normEntry(b[i]) {
 			return false
 		}
 	}
 	return true
+}
+
+func normEntry(s string) string {
+	open := strings.LastIndex(s, "[")
+	if open <= 0 || !strings.HasSuffix(s, "]") || strings.HasPrefix(s[open:], "[]") {
+		return s
+	}
+	attrs := strings.Split(s[open+1:len(s)-1], ",")
+	for i := range attrs {
+		attrs[i] = strings.Join(strings.Fields(attrs[i]), "")
+	}
+	sort.Strings(attrs)
+	return s[:open] + "[" + strings.Join(attrs, ",") + "]"
 }
 
 func (c *Checked) checkInfo(i int, op Op, res *OpResult, evs []Event) {
